@@ -96,7 +96,7 @@ func exactProps(fc *contract.Func) []string {
 
 // wrapAll: in thin safety sweeps int/int64 arithmetic on data wraps silently (Go semantics) instead of raising an obligation.
 func (e *Engine) wrapAll() bool {
-	return e.cur != nil && e.cur.fc != nil && e.cur.fc.Opts["sweep"] != ""
+	return e.cur != nil && e.cur.fc != nil && (e.cur.fc.Opts["sweep"] != "" || e.cur.fc.Opts["wrap"] != "")
 }
 
 // assumeTypeInv assumes the declared invariant of the pointee type of p (typeinv clauses; trusted).
